@@ -192,6 +192,23 @@ def inlinable(name, f, recursive):
     return True
 
 
+def _delegation(views, f, name, cn, own_ids):
+    """`pub fn new(a, b) -> R { Self::new_with(a, b, DEFAULT) }`: a public entry whose whole body is one call to another public function of
+    the same type, returning its result. The entry's view is the delegate's body with the entry's arguments (the delegate stays a subject of
+    its own)."""
+    g = views.raw[cn]
+    if not f.get("reachable_pub") or not g.get("reachable_pub") or g.get("kind") == "closure" or g.get("def_exp") or cn in views.recursive:
+        return False
+    if len(g["blocks"]) > MAX_CALLEE_BLOCKS or name.rsplit("::", 1)[0] != cn.rsplit("::", 1)[0]:
+        return False
+    live = [b for b in f["blocks"] if not b["cleanup"] and b["id"] in set(own_ids)]
+    calls = [b for b in live if b["term"]["k"] == "call"]
+    local = [b for b in calls if b["term"].get("resolved_local")]
+    if len(live) > 6 or len(local) != 1 or len(calls) > 2 or (f.get("ret_ty") or "") != (g.get("ret_ty") or ""):
+        return False
+    return True
+
+
 def build_views(raw_fns):
     """returns dict name -> inlined function dict (deep copies; originals untouched)"""
     recursive, g = _recursive_set(raw_fns)
@@ -943,6 +960,77 @@ def _canon_extend_array(f, bid):
         first = nb
     b["desugared_call"] = t
     b["term"] = {"k": "goto", "target": first, "line": line, "exp": "desugar:ExtendArray"}
+    return True
+
+
+def _canon_resize_with_grow(f, bid):
+    """`v.resize_with(v.len() + n, C)` appends C() n times: `v.extend((0..n).map(|_| C()))`, written that way in the view (the pipeline
+    rewriting then turns it into the counted loop of pushes)"""
+    blocks = f["blocks"]
+    B = blocks[bid]
+    t = B["term"]
+    if B["cleanup"] or t["k"] != "call" or t.get("name") != "resize_with" or t.get("self_adt") != "std::vec::Vec" or t.get("target") is None or len(t["args"]) != 3:
+        return False
+    rp, lp_, cp = [(a.get("move") or a.get("copy")) for a in t["args"]]
+    if not rp or rp["proj"] or not lp_ or lp_["proj"] or not cp or cp["proj"]:
+        return False
+
+    def unique_def(local):
+        ds = []
+        for bb in blocks:
+            if bb["cleanup"]:
+                continue
+            for st in bb["stmts"]:
+                if st["k"] == "assign" and st["place"]["local"] == local and not st["place"]["proj"]:
+                    ds.append(("stmt", bb, st))
+            tt = bb["term"]
+            if tt["k"] == "call" and tt["dest"]["local"] == local and not tt["dest"]["proj"]:
+                ds.append(("call", bb, tt))
+        return ds[0] if len(ds) == 1 else None
+    rd = unique_def(rp["local"])
+    if rd is None or rd[0] != "stmt" or "ref" not in (rd[2].get("rv") or {}) or not rd[2]["rv"].get("mut"):
+        return False
+    P = rd[2]["rv"]["ref"]
+    ld = unique_def(lp_["local"])
+    if ld is None or ld[0] != "stmt" or not isinstance((ld[2].get("rv") or {}).get("use"), dict):
+        return False
+    src = ld[2]["rv"]["use"].get("move") or ld[2]["rv"]["use"].get("copy")
+    if not src or len(src["proj"]) != 1 or src["proj"][0].get("k") != "field" or src["proj"][0].get("idx") != 0:
+        return False
+    td = unique_def(src["local"])
+    if td is None or td[0] != "stmt" or (td[2].get("rv") or {}).get("binop") not in ("AddWithOverflow", "Add"):
+        return False
+    ops = [td[2]["rv"]["l"], td[2]["rv"]["r"]]
+    n_op = None
+    for i in (0, 1):
+        o = ops[i].get("move") or ops[i].get("copy")
+        if not o or o["proj"]:
+            continue
+        dd = unique_def(o["local"])
+        if dd is not None and dd[0] == "call" and dd[2].get("name") == "len" and dd[2].get("self_adt") == "std::vec::Vec" and len(dd[2]["args"]) == 1:
+            ap = dd[2]["args"][0].get("move") or dd[2]["args"][0].get("copy")
+            ad = unique_def(ap["local"]) if ap and not ap["proj"] else None
+            if ad is not None and ad[0] == "stmt" and (ad[2].get("rv") or {}).get("ref") == P:
+                n_op = ops[1 - i]
+    if n_op is None:
+        return False
+    line = t.get("line")
+    mk = lambda place, rv: {"k": "assign", "place": place, "rv": rv, "line": line, "exp": None, "synth": True}
+    pl = lambda l, proj=(): {"local": l, "proj": list(proj)}
+    rng = _new_local(f, "std::ops::Range<usize>", "resize-with-range")
+    m = _new_local(f, "std::iter::Map<std::ops::Range<usize>, closure>", "resize-with-map")
+    ext = {"k": "call", "unwind": t.get("unwind"), "line": line, "exp": None, "synth": True, "gargs": [t.get("self_ty"), "?", "std::iter::Map"], "callee_local": False, "resolved_local": False,
+           "instance_kind": "Item", "ret_never": False, "callee": "std::iter::Extend::extend", "name": "extend", "trait": "std::iter::Extend", "self_ty": t.get("self_ty"), "self_adt": "std::vec::Vec",
+           "resolved": "<std::vec::Vec<T, A> as std::iter::Extend<T>>::extend", "callee_crate": "core", "resolved_crate": "alloc", "args": [t["args"][0], {"move": pl(m)}], "dest": dict(t["dest"]),
+           "target": t["target"]}
+    eb = _new_block(f, [], ext, "resize-with-extend")
+    B["stmts"] = list(B["stmts"]) + [mk(pl(rng), {"aggregate": {"kind": "adt", "adt": "std::ops::Range", "variant": None, "idx": 0, "fields": ["start", "end"]},
+                                                  "ops": [{"const": {"ty": "usize", "value": {"int": 0}}}, n_op]})]
+    B["desugared_call"] = t
+    B["term"] = {"k": "call", "callee": "std::iter::Iterator::map", "name": "map", "resolved": "<std::ops::Range<usize> as std::iter::Iterator>::map", "trait": "std::iter::Iterator",
+                 "self_ty": "std::ops::Range<usize>", "self_adt": "std::ops::Range", "gargs": [], "args": [{"move": pl(rng)}, t["args"][2]], "dest": pl(m), "target": eb,
+                 "unwind": t.get("unwind"), "line": line, "exp": None, "synth": True, "callee_local": False, "resolved_local": False, "callee_crate": "core", "resolved_crate": "core",
+                 "instance_kind": "Item", "ret_never": False, "nullary_mapper": True}
     return True
 
 
@@ -2016,6 +2104,7 @@ class Views:
             for bid in own_ids:
                 try:
                     _canon_repeat_with_take(f, bid)
+                    _canon_resize_with_grow(f, bid)
                 except Exception:
                     pass
             for bid in own_ids:
@@ -2093,7 +2182,9 @@ class Views:
                         t["untupled"] = True
                         _splice(f, bid, h, cn)
                     continue
-                if cn not in self.raw or cn == name or not inlinable(cn, self.raw[cn], self.recursive):
+                if cn not in self.raw or cn == name:
+                    continue
+                if not inlinable(cn, self.raw[cn], self.recursive) and not _delegation(self, f, name, cn, own_ids):
                     continue
                 h = self.get(cn, depth + 1, stack + (name,))
                 if len(f["blocks"]) + len(h["blocks"]) > MAX_VIEW_BLOCKS:
